@@ -603,10 +603,14 @@ fn main() {
     let results: Vec<Result<Outcome, String>> = rt.block_on(async {
         let sem = Arc::new(Semaphore::new(parallel));
         let mut hs = Vec::new();
-        for sc in scenarios {
+        for (i, sc) in scenarios.into_iter().enumerate() {
             let sem = sem.clone();
             let fault = fault.clone();
             hs.push(tokio::spawn(async move {
+                // the first wave does not start all its nodes in the same instant
+                if i < parallel {
+                    tokio::time::sleep(Duration::from_millis(40 * i as u64)).await;
+                }
                 let _p = sem.acquire_owned().await.unwrap();
                 run_scenario(sc, fault).await
             }));
